@@ -99,18 +99,18 @@ fn boundaries(text: &[u8]) -> Vec<usize> {
 /// token in front of it, or insert a copy of some other token of the document in front of it.  For
 /// grammars with `#`-prefixed constructs (zoo/c08role: `pragma: '#' comment`, comment also an extra)
 /// half of these toggle the `#` in front of a comment.
-fn role_edit(rng: &mut Rng, text: &[u8]) -> Option<TextEdit> {
+fn role_edit(rng: &mut Rng, text: &[u8], toggle: bool) -> Option<TextEdit> {
     let find_all = |pat: &[u8]| -> Vec<usize> { (0..text.len().saturating_sub(pat.len() - 1)).filter(|&i| text[i..].starts_with(pat)).collect() };
     let comments = find_all(b"/*");
-    if !comments.is_empty() && rng.chance(1, 2) {
-        let c = *rng.pick(&comments);
+    if !comments.is_empty() && (toggle || rng.chance(1, 2)) {
+        let c = if toggle { comments[0] } else { *rng.pick(&comments) };
         // the non-blank byte in front of the comment
         let mut j = c;
         while j > 0 && text[j - 1].is_ascii_whitespace() {
             j -= 1;
         }
         if j > 0 && text[j - 1] == b'#' {
-            return Some(TextEdit { start: j - 1, old_end: j, ins: if rng.chance(1, 2) { Vec::new() } else { b" ".to_vec() } });
+            return Some(TextEdit { start: j - 1, old_end: j, ins: if toggle || rng.chance(1, 2) { Vec::new() } else { b" ".to_vec() } });
         }
         return Some(TextEdit { start: c, old_end: c, ins: if rng.chance(1, 2) { b"#".to_vec() } else { b"# ".to_vec() } });
     }
@@ -205,14 +205,24 @@ fn seq_history(out: &mut impl Write, cid: &str, lang_id: &str, b: &zoo::Built, p
         // make sure there is a token that is NOT stored inline, in either role
         let long = format!("/* {}*/", "lorem ipsum dolor sit amet ".repeat(12));
         let c = *rng.pick(&["/* one\n   two */", "/* a\n b\n c */", long.as_str(), "/* c */"]);
-        let snippet = format!("{}{}{} ab\n", if rng.chance(1, 2) { "\n" } else { " " }, ["# ", "#", ""][rng.below(3)], c);
-        if rng.chance(1, 2) {
+        // three of four role histories are the directed shape: the document STARTS with `# <heap comment>`
+        // and the scripted edit deletes exactly that `#` (the comment is then reusable as an extra)
+        let directed = seed % 4 != 3;
+        let snippet = if directed {
+            format!("{}{} ab\n", ["# ", "#\n", "#  "][(seed / 4 % 3) as usize], [c, "/* one\n   two */", long.as_str()][(seed / 12 % 3) as usize])
+        } else {
+            format!("{}{}{} ab\n", if rng.chance(1, 2) { "\n" } else { " " }, ["# ", "#", ""][rng.below(3)], c)
+        };
+        if !directed && rng.chance(1, 2) {
             text.extend_from_slice(snippet.as_bytes());
         } else {
             let mut t = snippet.into_bytes();
             t.extend_from_slice(&text);
             text = t;
         }
+    }
+    if let Ok(t) = std::env::var("C08_DEBUG_TEXT") {
+        text = t.replace("\\n", "\n").into_bytes(); // test knob: fixed document
     }
     // a role history starts with: copy 0 -> 1, role-changing edit of the copy, re-parse with the copy as old tree
     let script: Vec<(usize, usize)> = if role { vec![(0, 0), (2, 1), (5, 1)] } else { Vec::new() };
@@ -268,7 +278,7 @@ fn seq_history(out: &mut impl Write, cid: &str, lang_id: &str, b: &zoo::Built, p
                 let text = fam.texts[h].clone();
                 let alpha = alphabet_for(&text);
                 let refs: Vec<&[u8]> = alpha.iter().map(|v| v.as_slice()).collect();
-                let te = match if role && (opi < script.len() || rng.chance(2, 3)) { role_edit(&mut rng, &text) } else { None } {
+                let te = match if role && (opi < script.len() || rng.chance(2, 3)) { role_edit(&mut rng, &text, opi < script.len()) } else { None } {
                     Some(te) => te,
                     None => random_edit(&mut rng, &text, &boundaries(&text), &refs),
                 };
